@@ -300,7 +300,14 @@ def run(ctx):
                                              Slice(Fragment.from_(x0.type.create(x0.attrs, [schema.text(txt)])), 0, 0),
                                              1 + rng.randint(1, len(txt) - 1), rng.random() < 0.3)
                     ctx.count("aimed_insert_inside_text_steps")
-                    ctx.count("aimed_inside_text_random:" + apply_outcome(step, d)[0])
+                    # expectation (repaired `insert_into`): the built content `text₁ gap text₂` is valid content of
+                    # `image* text*` iff the gap holds no image — refused otherwise ("Content does not fit in gap")
+                    want_st = "failed" if any(x0.child(j).type.name == "image" for j in range(x0.child_count)) else "ok"
+                    got_st = apply_outcome(step, d)[0]
+                    ctx.count("aimed_inside_text_random:" + got_st)
+                    if got_st != want_st:
+                        ctx.mismatch("aimed-inside-text-expectation",
+                                     {"schema": "random", "doc": d.to_json(), "step": step.to_json()}, want_st, got_st)
                 via_json = rng.random() < 0.3
                 if via_json:
                     stj, step2 = outcome(lambda: Step.from_json(schema, json.loads(json.dumps(step.to_json()))))
